@@ -4,7 +4,10 @@ EXTENDS MC
 \* directory and its sibling's name extends the directory's name, so the parser's bundle order differs from the sorted order
 mcOrd == <<"d", "s1", "s2", "o.s", "o/x">>
 mcMenu == << << Rl(<<"d">>, <<"o/x">>, "fn", "c2"), Rl(<<"o.s", "o/x">>, <<"s1", "s2">>, "sel", "c1") >>,
-             << Rl(<<"d">>, <<"o/x">>, "fn", "c2"), MkRule(<<"o.s", "o/x">>, <<"s1", "s2">>, "sel", "c1", 0, <<>>, TRUE, FALSE) >> >>
+             << Rl(<<"d">>, <<"o/x">>, "fn", "c2"), MkRule(<<"o.s", "o/x">>, <<"s1", "s2">>, "sel", "c1", 0, <<>>, TRUE, FALSE) >>,
+             \* the same rules as in the first entry, the two-target rule spelled with flat path lines (o/x) instead of a bundle: the
+             \* parser delivers its targets in another order, the rule is the same rule (the field is only read by the harness)
+             << Rl(<<"d">>, <<"o/x">>, "fn", "c2"), [flat |-> TRUE] @@ Rl(<<"o.s", "o/x">>, <<"s1", "s2">>, "sel", "c1") >> >>
 mcInit == << <<"s1", "S0">>, <<"s2", "S0">> >>
 mcScriptRevert == << <<"build", "">>, <<"edit", "s1", "S1">>, <<"build", "">>, <<"edit", "s1", "S0">>, <<"build", "">>, <<"build", "">> >>
 mcScriptRevert2 == << <<"build", "">>, <<"edit", "s2", "S1">>, <<"build", "">>, <<"edit", "s2", "S0">>, <<"build", "d">>, <<"clean", "">>, <<"build", "">> >>
